@@ -1,3 +1,64 @@
-(* Property C01 -- placeholder header; theorems are added below as they are proved. *)
+(* Property C01 -- linear error propagation is exact and aligned by configuration number.
+   Property theorems only (closed by [exact]); the proofs live in PV.Obs.DerivedThm. *)
 From Coq Require Import ZArith QArith List Bool String.
-From PV Require Import Base.QAux Obs.Model Obs.Derived.
+From PV Require Import Base.QAux Obs.Model Obs.Derived Obs.DerivedThm.
+Import ListNotations.
+Open Scope Q_scope.
+
+(* The result is defined on the union of the operands' configurations (sorted, duplicate free). *)
+Theorem result_configurations_are_the_union :
+  forall (l : list idl) (x : Z), l <> [] ->
+  (In x (cfgs (merge_idx l)) <-> exists i, In i l /\ In x (cfgs i)).
+Proof. exact merge_idx_member. Qed.
+
+Theorem result_configurations_increasing :
+  forall l : list idl, l <> [] -> Forall (fun i => incr (cfgs i)) l -> incr (cfgs (merge_idx l)).
+Proof. exact merge_idx_incr. Qed.
+
+(* One expanded entry = the operand's fluctuation on THAT configuration number (0 if not measured
+   there) times |union| / |own| times the replica scale factor -- for contiguous, strided, gapped,
+   irregular and partly overlapping layouts alike, and also through the equal-range shortcut. *)
+Theorem expansion_is_aligned_by_configuration_number :
+  forall deltas idx new_idx sf i,
+  incr (cfgs idx) -> incr (cfgs new_idx) ->
+  List.length (cfgs idx) = List.length deltas ->
+  (forall x, In x (cfgs idx) -> In x (cfgs new_idx)) ->
+  cfgs idx <> [] -> (i < List.length (cfgs new_idx))%nat ->
+  nth i (expand_for_merge deltas idx new_idx sf) 0 == expand_spec deltas idx new_idx sf (nth i (cfgs new_idx) 0%Z).
+Proof. exact expand_for_merge_aligned. Qed.
+
+(* The fluctuation of the result on every configuration is the gradient-weighted sum of the
+   operands' aligned, up-weighted fluctuations. *)
+Theorem derived_fluctuation_pointwise :
+  forall ops n i gs, Forall obs_wf ops -> (i < List.length (cfgs (new_idl ops n)))%nat ->
+  acc_nth (acc_deltas ops n gs ops None) i == aligned_sum ops n (nth i (cfgs (new_idl ops n)) 0%Z) gs ops.
+Proof. exact derived_deltas_aligned. Qed.
+
+(* The up-weight |union|/|own| * sf is exactly what keeps the operand's contribution to the replica
+   mean unchanged (stated for arbitrary, not necessarily zero-sum, fluctuations). *)
+Theorem upweight_keeps_replica_mean :
+  forall deltas idx new_idx sf,
+  incr (cfgs idx) -> incr (cfgs new_idx) ->
+  List.length (cfgs idx) = List.length deltas ->
+  (forall x, In x (cfgs idx) -> In x (cfgs new_idx)) -> cfgs idx <> [] -> cfgs new_idx <> [] ->
+  Qsum (map (expand_spec deltas idx new_idx sf) (cfgs new_idx)) / Qlen (cfgs new_idx)
+  == sf * (Qsum deltas / Qlen (cfgs idx)).
+Proof. exact upweight_preserves_mean. Qed.
+
+(* Non-vacuity: a gapped operand {2,3,7} inside the union {1,2,3,5,7} of two list-type idl: hypotheses
+   hold and the expansion is visibly by number, not by position. *)
+Example expansion_nonvacuous :
+  let idx := mkIdl false [2;3;7]%Z in let new := mkIdl false [1;2;3;5;7]%Z in
+  incr (cfgs idx) /\ incr (cfgs new) /\ (forall x, In x (cfgs idx) -> In x (cfgs new)) /\
+  map Qred (expand_for_merge [1;2;4] idx new 1) = map Qred [0; 5#3; 10#3; 0; 20#3] /\
+  cfgs (merge_idx [idx; mkIdl true [1;3;5]%Z]) = [1;2;3;5;7]%Z.
+Proof.
+  cbv zeta. split; [repeat constructor|]. split; [repeat constructor|].
+  split; [simpl; intuition|]. split; vm_compute; reflexivity.
+Qed.
+
+Print Assumptions result_configurations_are_the_union.
+Print Assumptions result_configurations_increasing.
+Print Assumptions expansion_is_aligned_by_configuration_number.
+Print Assumptions derived_fluctuation_pointwise.
+Print Assumptions upweight_keeps_replica_mean.
